@@ -42,16 +42,41 @@ def run(ctx):
     A.sweep(ctx, n, A.ALL_KINDS, ["early"], SIGS_B, corpus=CORPUS_B, opts={"p_jobfail": 0.25, "p_nomd": 0.2})
     for m in corr_modules():
         m.run(ctx, "C04", 40 if not ctx.thorough() else 1500)
+    dask_boundary(ctx)
     ctx.coverage["rule"] = ("(A) graph-family generator, both modes, 15% failing functions / failing consumers, every emission with a fresh counter; "
-                            "(B) asynchronous pipelines over all holding node types incl. latest, every emission with a fresh counter with callback. "
+                            "(B) asynchronous pipelines over all holding node types incl. latest, every emission with a fresh counter with callback; "
+                            "(C) scatter()...gather() segments of the C20 family on the in-process Dask cluster (await / buffer / concurrent producers), every input with a counter. "
                             "Non-trivial as in C01/C02.")
     ctx.assumptions += ["'derived from' = carries the element's metadata entry (flatten attaches it to the last piece only, by design)",
                         "holders are evaluated when the loop has settled after the operation during which the callback fired"]
 
 
+def dask_boundary(ctx, cases=None):
+    """(C) scatter()/gather() hold the references of the elements waiting in them (streamz/dask.py 95-150): pipelines of the C20
+    family on the in-process cluster; a result carrying a reference must not reach the sink after that reference's counter hit zero."""
+    from . import c20
+    if cases is None:
+        plan = [("await", 60), ("buffer", 60), ("concurrent", 80)] if ctx.thorough() else [("await", 2), ("buffer", 3), ("concurrent", 5)]
+        cases = list(c20.CORPUS) + [c20.gen_case(ctx.rng, mode) for mode, k in plan for _ in range(k)]
+    for c, (loc, dsk) in zip(cases, c20.run_cases(cases)):
+        ctx.count("dask-boundary:" + c["mode"])
+        n = len(c["xs"])
+        ctx.case({"dask": c}, nontrivial=len(loc["out"]) >= 2 and dsk["tasks"] >= 1)
+        if any(dsk["late"][i] and not loc["late"][i] for i in range(n)):
+            ctx.failure("early-callback:dask", "Dask-backed pipeline: results carrying a reference reached the sink after that reference's counter "
+                        "had reached zero (sink positions per input %r; locally %r)" % (dsk["late"], loc["late"]), {"dask": c},
+                        oracle="the completion callback never fires while the element is waiting in scatter/gather or being computed")
+        elif any(dsk["fired"][i] and dsk["outcomes"][i] != "ok" for i in range(n)) if "outcomes" in dsk else False:
+            ctx.failure("failed-callback:dask", "the callback of an element whose emit failed fired: %r / %r" % (dsk["fired"], dsk["outcomes"]), {"dask": c})
+
+
 def replay(ctx, data):
     ctx.audit(extra_modules=lean_extra("C04"))
     case = data["case"]
+    if "dask" in case:
+        dask_boundary(ctx, [case["dask"]])
+        ctx.coverage["rule"] = "replay of one recorded case"
+        return
     if any(op["op"] in ("advance", "settle", "jobdone", "jobfail") for op in case["ops"]) or any(n["kind"] in ac.HOLDING for n in case["nodes"]):
         ac.evaluate(ctx, case, ac.rerun(case), ["early"], SIGS_B)
     else:
